@@ -197,13 +197,13 @@ def rule_coherence(ctx):
             for msg, what in probs:
                 ctx.violation("C03.c", "cursor", "FakeSnowflakeCursor._execute", f"{kind}: stale conn.{what}",
                               "fakesnow/cursor.py", f"after {kind}: {msg}")
-    for kind, gone in (("DROP SCHEMA", "schema"), ("DROP DATABASE", "database")):
+    for kind, gone in (("DROP SCHEMA", "schema"), ("DROP DATABASE", "database"), ("DROP SCHEMA current", "schema"), ("DROP DATABASE current", "database")):
         for tr in traces(prog, kind):
             if tr.path.outcome != "return":
                 continue
             n += 1
             c = tr.conn.attrs
-            cur_dropped = any(t.startswith(f"CUR_{'SCHEMA' if gone == 'schema' else 'DB'} ==") and v for t, v in tr.path.assumed)
+            cur_dropped = kind.endswith("current")
             if not cur_dropped:
                 ok = not [x for x, _, _ in tr.stores("conn") if x in CTX_ATTRS]
                 ctx.ob("C03.c", f"{kind} of another object leaves the context alone", ok, "fakesnow/cursor.py")
